@@ -30,8 +30,8 @@ META = dict(
         "any other exception is a violation"],
     need=["trees", "points", "value_cmp", "jac_cmp", "mirror_value_cmp", "mirror_jac_cmp",
           "structure_changed", "shared_subtree_trees", "shared_leaf_trees", "cloned_trees"],
-    quick=dict(cases=200, workers=6, budget_s=75),
-    thorough=dict(cases=3200, workers=16, budget_s=780),
+    quick=dict(cases=300, workers=6, budget_s=75),
+    thorough=dict(cases=4000, workers=16, budget_s=780),
     design_ref="DESIGN.md §5 C05",
     level_text=("random trees with explicit sharing, many points per tree, value and dense "
                 "Jacobian compared between original, optimised and mirror; exploration"),
@@ -116,7 +116,8 @@ def case(ck, i):
     I, mr = ck.state["ift"], ck.state["mr"]
     rng = ck.rng()
     cfg = dict(md=True, nkeys=(2, 4), cplx=False, steps=(4, ck.pick(11, 14)), total=True,
-               maxdepth=ck.pick(7, 9), same_dt=True, p_share=0.5, p_subst=0., jax=False)
+               maxdepth=ck.pick(7, 9), same_dt=True, p_share=0.5, p_subst=0., jax=False,
+               minbin=0 if rng.integers(0, 40) == 0 else 1, linstart=0.2)
     g = mr.gen_program(rng, **cfg)
     if g is None:
         ck.note(dict(gen="failed"), nontrivial=False, klass="gen-failed")
@@ -179,9 +180,14 @@ def case(ck, i):
                 fn = tb.tb_frame.f_code.co_name
             tb = tb.tb_next
         ck.note(desc, nontrivial=False, klass=klass)
-        ck.violation(f"raises:optimise_operator:{type(e).__name__}@{fn}", f"optimise_operator "
-                     f"raised {type(e).__name__}: {str(e)[:200]}", shared_leaves=nleaf,
-                     shared_subtrees=nsub, clones=ncl)
+        ck.hit("optimiser_raised")
+        inner = mr.nifty_exc_key(e).split("@", 1)[1]
+        ck.violation(f"raises:optimise_operator:{type(e).__name__}@{fn}:{inner}",
+                     f"optimise_operator raised {type(e).__name__}: {str(e)[:200]}",
+                     shared_leaves=nleaf, shared_subtrees=nsub, clones=ncl)
+        if repr(F) != rep0:
+            ck.violation("original-modified", "optimise_operator changed the operator it was "
+                         "given (and raised)")
         return
     finally:
         I.random.pop_sseq()
@@ -259,6 +265,19 @@ def case(ck, i):
             ck.violation("jac:optimised-vs-mirror" if okF else "jac:both-vs-mirror",
                          "Jacobian differs from jax autodiff of the mirror", reldev=devj, point=pt)
             return
+
+
+def parent_post(pk):
+    """an optimiser that fails (raises or rejects its own result) on a large share of valid
+    trees is reported even if every single failure mechanism is a listed finding"""
+    t = pk.hits.get("trees", 0)
+    bad = pk.hits.get("optimiser_raised", 0) + pk.hits.get("selfcheck_rejected", 0)
+    pk.extra["optimiser_failure_fraction"] = round(bad/t, 4) if t else None
+    if t >= 40 and bad > 0.2*t:
+        pk.violations.append(dict(key="optimise_operator:failure-rate", i=None, desc=None,
+                                  what=f"optimise_operator failed on {bad} of {t} valid trees",
+                                  witness=dict(raised=pk.hits.get("optimiser_raised", 0),
+                                               selfcheck=pk.hits.get("selfcheck_rejected", 0))))
 
 
 def fini(ck):
